@@ -810,7 +810,7 @@ func (wf *WALFileType) RequestFlush() {
 	}
 	// if there's already a queued flush, no need to queue another
 	if len(wf.txnPipe.flushChannel) > 0 {
-		verifhook.At("RequestFlush.early")
+		verifhook.At("RequestFlush.early", len(wf.txnPipe.flushChannel))
 		return
 	}
 	verifhook.At("RequestFlush.push")
